@@ -51,7 +51,9 @@ func TestMain(m *testing.M) {
 		"exhaustive over flag words: all 2^16 apply-action values in 1- and 2-octet form (plus 3-octet and empty inputs), reporting triggers all 2^16 in 2-octet form and "+
 			"2^18 structured + random (quick) / all 2^24 (thorough) in 3-octet form, every usage-report-trigger single bit, all pairs and random words, all 64 volume-measurement subsets x MNOP; "+
 			"oracle = octet/bit table transcribed from TS 29.244 8.2.26/8.2.19/8.2.41/8.2.13, cross-checked at start-up against go-pfcp's independent Has*() accessors. "+
-			"non-trivial = value with >= 2 bits set spread over >= 2 octets (or, for the one-octet volume flags, >= 2 bits); distinct by (IE kind, octet form, value)",
+			"Causes are also followed along the delivery path: REPORT netlink messages with 1-8 usage reports, each with its own single cause (every ordered pair exhaustively, longer messages at random, one or several sessions), multicast by the simulated kernel to the real listener of the real driver; "+
+			"each report must reach the report handler with the usage-report trigger of its own cause and no other. "+
+			"non-trivial = value with >= 2 bits set spread over >= 2 octets (or, for the one-octet volume flags, >= 2 bits), or a REPORT message with >= 2 different causes; distinct by (IE kind, octet form, value)",
 		"TS 29.244 is not available offline: the table was transcribed from memory of the specification and is cross-checked against go-pfcp's accessors, which go-upf does not use; disagreement aborts the check with exit 2",
 		"REEMR has no same-named usage-report trigger (EMRRE): mapping not required")
 	crossCheck()
@@ -395,17 +397,25 @@ func checkConstants(t *testing.T) {
 func TestC19(t *testing.T) {
 	files, explicit := vcore.ReplayFiles()
 	for _, f := range files {
-		var c Case
-		if err := vcore.LoadReplayCase(f, &c); err != nil {
+		var w struct {
+			Case
+			Delivered *DCase `json:"delivered"`
+		}
+		if err := vcore.LoadReplayCase(f, &w); err != nil {
 			t.Fatalf("replay %s: %v", f, err)
 		}
 		vcore.E.Class("replayed")
-		run(t, c)
+		if w.Delivered != nil {
+			runDelivered(t, *w.Delivered)
+			continue
+		}
+		run(t, w.Case)
 	}
 	if explicit {
 		return
 	}
 	checkConstants(t)
+	deliveredPart(t)
 	// apply action: empty, all 1-octet, all 2-octet, 3-octet samples
 	run(t, Case{Kind: "apply", Bytes: []byte{}})
 	for v := 0; v < 256; v++ {
